@@ -3,7 +3,7 @@
 // future/promise internals are C01/C02's subject), so the scheduling points are exactly: the end of every critical
 // section on the pool mutex, a blocking condition wait, a join, the end of a thread.
 //
-//   case <id> pool <nworkers>
+//   case <id> pool <nworkers> [cvy]     cvy: scheduling point at the entry of the pool's _cond.wait (predicate evaluated, mutex held)
 //   c <op>...              one line per client thread (threads nworkers, nworkers+1, ...)
 //   sched <tid>...
 //   end
@@ -264,11 +264,13 @@ struct Scn {
         else log("pool destroyed");
     }
 
+    bool cv_yield = false;
     void run(int nworkers, const std::vector<std::vector<std::string>> &clients, const std::vector<int> &sched) {
         nw = nworkers;
         pool = new thread_pool(nworkers);
         S().name_obj(&pool->_mx, "mx");
         S().name_obj(&pool->_cond, "cv");
+        if (cv_yield) S().yield_on_cv_entry = &pool->_cond;
         for (auto &c : clients) {
             std::vector<std::string> ops(c.begin() + 1, c.end());
             S().spawn([this, ops] { client(ops); });
@@ -301,6 +303,7 @@ static void run_case(const std::vector<std::string> &hdr, const std::vector<std:
     int nw = hdr.size() > 3 ? atoi(hdr[3].c_str()) : 1;
     if (nw < 1) nw = 1;
     Scn *s = new Scn;
+    s->cv_yield = std::find(hdr.begin(), hdr.end(), "cvy") != hdr.end();
     s->run(nw, clients, sched);
     S().log_line("end");
     std::cout.flush();
